@@ -125,7 +125,26 @@ def run_config(cfg, res):
   names += ['app.prod.web%d.count' % i for i in range(20)] + ['app.x.y.hits', 'agg.prod.total']
   cls = DatapointRouter.plugins[settings.RELAY_METHOD]
   aggregated = 'aggregated' in cfg['router']
-  for cell in cfg['cells']:
+  cells_here = list(cfg['cells'])
+  if cfg['name'].endswith('/0'):
+    # destinations whose node names share a 16-bit hash position (the fast ring places a node by one hash of its name;
+    # the consistent ring by 100 replica keys): found with the reference hash, then given to the router like any others
+    seen_pos, pair = {}, None
+    for i in range(5000):
+      node = ('cache-%04d.example.com' % i, 'a')
+      pnode = refring.position(str(node), cfg['hash_type'])
+      if pnode in seen_pos:
+        pair = (seen_pos[pnode], node)
+        break
+      seen_pos[pnode] = node
+    if pair:
+      d0, d1 = (pair[0][0], 2004, pair[0][1]), (pair[1][0], 2004, pair[1][1])
+      for rf in (1, 2, 3):
+        for diverse in (True, False):
+          cells_here.append(dict(dests=[list(d0), list(d1)], rf=rf, diverse=diverse, colliding=True))
+          cells_here.append(dict(dests=[list(d0), ['10.0.0.9', 2004, 'b'], list(d1)], rf=rf, diverse=diverse, colliding=True))
+      res.count('cells_with_colliding_node_names', 12)
+  for cell in cells_here:
     settings['REPLICATION_FACTOR'] = cell['rf']
     settings['DIVERSE_REPLICAS'] = cell['diverse']
     if aggregated:
